@@ -5,7 +5,9 @@ import corpus
 
 
 def run(chk):
-    grids = corpus.get(tier=chk.tier)
+    # the option cap_Bp_ylow_xpoint raises Bpxy at the y-faces next to an X-point: the metric must be computed from the Bpxy (and the dphidy) that are written
+    extra = [corpus.tok("lsn_neg_capBp", "lsn", corpus.SN, sign=-1.0, options=dict(cap_Bp_ylow_xpoint=True), must_build=True)]
+    grids = corpus.get(tier=chk.tier, extra_cfgs=extra)
     stats = {}
     for g in grids:
         if not g.ok:
